@@ -60,6 +60,7 @@ impl Prop for C09 {
     }
     fn check(c: &Case, ctx: &mut Ctx) -> CheckResult {
         let b0 = &c.base.b;
+        crate::common::label_long(ctx, b0);
         let n = b0.n;
         let perm = perm_from_keys(&c.keys, n);
         let bp = permute_steps(b0, &perm);
